@@ -14,11 +14,13 @@ ENTRY = {
         quick=[REPLAY,
                R("plans-p4", "^TestPlans$", checks=40, race=True, gomaxprocs=4, env=_ENV, timeout=600),
                R("plans-p16", "^TestPlans$", checks=40, race=True, gomaxprocs=16, env=_ENV, timeout=600),
-               R("plans-p2", "^TestPlans$", checks=30, race=True, gomaxprocs=2, env=_ENV, timeout=600)],
+               R("plans-p2", "^TestPlans$", checks=30, race=True, gomaxprocs=2, env=_ENV, timeout=600),
+               R("atomic-move", "^TestAtomicMove$", checks=6, race=True, env=_ENV, timeout=600)],
         thorough=[REPLAY,
                   R("plans-p4", "^TestPlans$", checks=300, race=True, gomaxprocs=4, shards=4, env=_ENV, timeout=3000),
                   R("plans-p16", "^TestPlans$", checks=300, race=True, gomaxprocs=16, shards=3, env=_ENV, timeout=3000),
-                  R("plans-p2", "^TestPlans$", checks=300, race=True, gomaxprocs=2, shards=6, env=_ENV, timeout=3000)],
+                  R("plans-p2", "^TestPlans$", checks=300, race=True, gomaxprocs=2, shards=6, env=_ENV, timeout=3000),
+                  R("atomic-move", "^TestAtomicMove$", checks=30, race=True, shards=4, env=_ENV, timeout=3000)],
         replay_race=True,
     ),
 }
